@@ -32,6 +32,7 @@ def cases(draw, nums, pmax=5, kmax=4):
         st.sampled_from([None, None, 1, 2, -1, -2])), min_size=1, max_size=2))
     sj = draw(st.integers(0, p))
     return {"U": U, "p": p, "w": w, "num": num, "pairs": pairs, "slices": slices, "sj": sj,
+            "eval_before_weights": draw(st.booleans()),
             "reject_first": draw(st.sampled_from([None, None, None, "negative", "zero", "length"]))}
 
 
@@ -63,6 +64,15 @@ def check(case, out):
     tol = F(1, 10 ** 9)
 
     f = lib.Function(Ulib)
+    if case.get("eval_before_weights"):
+        # history on one object: evaluate, then change the weights, then evaluate again
+        out.cls("evaluated-before-weights")
+        mid = (Ulib[0] + Ulib[-1]) / 2
+        f(mid)
+        f[:, p](mid)
+        if wlib is not None:
+            f.weights = [x + x for x in wlib]
+            f(mid)
     if wlib is not None:
         f.weights = wlib
     if case.get("reject_first"):
